@@ -29,7 +29,7 @@ func (r *ReAST) MarshalJSON() ([]byte, error) {
 		return json.Marshal(map[string]any{"t": r.T, "set": set, "neg": r.Neg})
 	case "cat", "alt":
 		return json.Marshal(map[string]any{"t": r.T, "a": r.A, "b": r.B})
-	case "star", "plus", "opt":
+	case "star", "plus", "opt", "grp":
 		return json.Marshal(map[string]any{"t": r.T, "a": r.A})
 	case "cap":
 		return json.Marshal(map[string]any{"t": r.T, "name": r.N, "a": r.A})
@@ -77,6 +77,8 @@ func (r *ReAST) Text() string {
 		return grp(r.A.Text()) + "?"
 	case "cap":
 		return "(?P<" + S(r.N) + ">" + r.A.Text() + ")"
+	case "grp":
+		return "(" + r.A.Text() + ")"
 	case "bol":
 		return "^"
 	case "eol":
@@ -92,7 +94,7 @@ func (r *ReAST) nullable() bool {
 		return true
 	case "lit", "any", "cls":
 		return false
-	case "cap", "plus":
+	case "cap", "grp", "plus":
 		return r.A.nullable()
 	case "cat":
 		return r.A.nullable() && r.B.nullable()
@@ -120,7 +122,9 @@ func genCapRe(r *rand.Rand, depth int, alphabet string, names *[]string) *ReAST 
 		return leaf()
 	}
 	sub := func() *ReAST { return genCapRe(r, depth-1, alphabet, names) }
-	switch r.Intn(9) {
+	switch r.Intn(10) {
+	case 9:
+		return &ReAST{T: "grp", A: sub()} // unnamed capturing group: takes an index, yields no label
 	case 0, 1:
 		if len(*names) > 0 {
 			n := (*names)[0]
